@@ -60,7 +60,11 @@ class C17(Prop):
                        "1-8, dyadic RTT samples, clock advances by multiples of the RTO in force (timer expiries), raw/odd ACK "
                        "numbers; Reno from random cwnd/ssthresh/MSS, CUBIC from defaults (and, marked cubic_preset, with "
                        "cwnd/ssthresh attributes preset). non-trivial = at least 8 recorded events including a new ACK and at "
-                       "least one of: third duplicate, timer expiry, congestion-avoidance ACK; distinct by hash of the case")
+                       "least one of: third duplicate, timer expiry, congestion-avoidance ACK. kind 'app' (a quarter of the cases): the same sender "
+                       "with the Flow's application process -- scripted arrival_dist (dyadic inter-write times incl. 0) and size_dist (writes of "
+                       "k*MSS, non-multiples, less than one MSS, zero), flow sizes with a trailing partial segment or below one MSS, start_time, "
+                       "finish_time -- under ACK / duplicate / wait scripts; non-trivial = run() is resumed by an application write at least once "
+                       "and something is transmitted. distinct by hash of the case")
     trusted_base = [
         "vlib/translate.py (Python ast, fail closed; tables in props/tcp_tie.py) regenerates coq/Gen/Extracted_tcpsender.v from "
         "TCPPacketGenerator.put / timeout_callback of the tree under test before every build; C17_gen_sender_put / _timeout "
@@ -76,6 +80,9 @@ class C17(Prop):
         "(max_cnt = cwnd/(W_tcp - cwnd) is ill-conditioned in binary64: relative error about 3*cwnd^2*2^-52)",
         "props/tcp_common.py:translate_cc / translate_cubic (Python ast, fail-closed) regenerate coq/Gen/Extracted_cc.v from the CongestionControl / TCPReno / TCPCubic method bodies "
         "of the tree under test before every build; the C17_gen_* theorems bridge them to the hand-written model",
+        "kind 'app': arrival_dist / size_dist are harness callables replaying the case's lists (then a default); the resumptions of run() are "
+        "classified by the event it had yielded (Timeout = application write or start_time, StoreGet = window token); last_arrival, the pending "
+        "Timeout's instant and the numbers of draws taken are part of the compared state (coq/Tcp/AppSender.v)",
         "the Timer is taken as specified by C19 (fires its callback once at creation+timeout unless stopped; restart from its own callback re-arms); "
         "the monitor checks expiry instants against the armed deadlines",
     ]
@@ -235,7 +242,13 @@ class C17(Prop):
             return (f"state_exact {init} {st0} && cubic_close cubic0 {T.coq_cubic(obs['init'])} && "
                     f"check_tracex {FX} {cfg} {st0} {T.coq_cubic(obs['init'])}\n [{ents[1:-1]}]")
         ents = cf.lst([T.coq_entry(e) for e in obs["entries"]], sep=";\n  ")
-        return f"state_exact {init} {st0} && check_trace {FX} {cfg} {st0}\n [{ents[1:-1]}]"
+        # the same history also through the extended model (Tcp/AppSender.v) with no application process configured:
+        # it must reproduce what the plain sender model reproduces
+        plain = {**case, "size": case["nseg"] * case["mss"], "start": "0/1", "finish": None, "arr": None, "arr_default": None,
+                 "siz": None, "siz_default": None}
+        aents = cf.lst([T.coq_aentry(e) for e in obs["entries"]], sep=";\n  ")
+        return (f"state_exact {init} {st0} && check_trace {FX} {cfg} {st0}\n [{ents[1:-1]}] && "
+                f"check_atrace {FX} (Z.to_nat 5000) {T.coq_acfg(plain)} {st0} {T.coq_app(obs['init'])}\n [{aents[1:-1]}]")
 
     def model_term(self, case):
         return None
